@@ -282,7 +282,7 @@ async fn list_sorted(p: &AsyncVfsPath) -> VfsResult<Vec<AsyncVfsPath>> {
 fn snap_dir<'a>(reads: bool, p: AsyncVfsPath, set: &'a HashSet<i128>, out: &'a mut Vec<String>, depth: usize)
     -> Pin<Box<dyn Future<Output = ()> + 'a>> {
     Box::pin(async move {
-        if depth > 64 { return; }
+        if depth > 380 { return; }
         match list_sorted(&p).await {
             Ok(children) => {
                 for c in children {
